@@ -559,7 +559,15 @@ impl<'a, 'c> Gen<'a, 'c> {
                     let c = self.expr(&Ty::Bool, d, true);
                     let a = self.expr(&Ty::Int, d, flow);
                     let b = self.expr(&Ty::Int, d, flow);
-                    format!("({a} if {c} else {b})")
+                    if self.ch.chance(1, 3) {
+                        // chained conditional: grouping of the else arm is decided by each implementation's grammar
+                        let c2 = self.expr(&Ty::Bool, d, true);
+                        let b2 = self.expr(&Ty::Int, d, flow);
+                        self.label("chained_conditional");
+                        format!("({a} if {c} else {b} if {c2} else {b2})")
+                    } else {
+                        format!("({a} if {c} else {b})")
+                    }
                 }
                 10 => {
                     let s = atomize(self.expr(&Ty::Str, d, true));
